@@ -171,12 +171,23 @@ class Ctx:
         self.pc_raw.append(b)
         self.solver.add(b)
 
+    def _rebuild_solver(self):
+        """after an internal solver error: a fresh incremental solver holding the path condition"""
+        self.solver = z3.Solver()
+        self.solver.set("timeout", self.ex.feas_timeout_ms)
+        for b in self.pc:
+            self.solver.add(b)
+
     def _check(self, extra):
         t0 = time.time()
-        self.solver.push()
-        self.solver.add(extra)
-        r = self.solver.check()
-        self.solver.pop()
+        try:
+            self.solver.push()
+            self.solver.add(extra)
+            r = self.solver.check()
+            self.solver.pop()
+        except z3.Z3Exception:
+            self._rebuild_solver()
+            r = z3.unknown  # an internal solver failure decides nothing
         self.ex.solver_secs += time.time() - t0
         return r
 
@@ -195,12 +206,15 @@ class Ctx:
             sl.set("timeout", self.ex.feas_timeout_ms)
             sl.add(cone_of_influence(self.pc_raw, ct))
             t0 = time.time()
-            sl.push()
-            sl.add(ct)
-            rt = sl.check()
-            sl.pop()
-            sl.add(cf)
-            rf = sl.check()
+            try:
+                sl.push()
+                sl.add(ct)
+                rt = sl.check()
+                sl.pop()
+                sl.add(cf)
+                rf = sl.check()
+            except z3.Z3Exception:
+                rt = rf = z3.unknown  # internal solver failure: both outcomes stay possible
             self.ex.solver_secs += time.time() - t0
             got = (rt != z3.unsat, rf != z3.unsat)
             self.ex.feas_cache[key] = got
@@ -241,7 +255,11 @@ class Ctx:
 
     def is_sat(self):
         t0 = time.time()
-        r = self.solver.check()
+        try:
+            r = self.solver.check()
+        except z3.Z3Exception:
+            self._rebuild_solver()
+            r = z3.unknown
         self.ex.solver_secs += time.time() - t0
         return r != z3.unsat
 
@@ -323,10 +341,16 @@ class Ctx:
             ob.status, ob.solver = "discharged", "simplifier"
         else:
             s = self.solver
-            s.push()
-            s.set("timeout", self.ex.oblig_timeout_ms)
-            s.add(z3.Not(g))
-            r = s.check()
+            try:
+                s.push()
+                s.set("timeout", self.ex.oblig_timeout_ms)
+                s.add(z3.Not(g))
+                r = s.check()
+            except z3.Z3Exception:
+                self._rebuild_solver()
+                s = self.solver
+                s.push()
+                r = z3.unknown
             if r == z3.unsat:
                 ob.status, ob.solver = "discharged", "z3"
             elif r == z3.sat:
